@@ -3,7 +3,7 @@
 # (parallel-safe alternative to try_seed.sh, which patches /repo itself). Evidence/replay go to /verif/.work/alt-*.
 patch="$(readlink -f "$1")"; tier="$2"; shift 2
 wt=/tmp/seedwt-$$
-git -C /repo worktree add -q --detach $wt HEAD || exit 2
+git -C /repo worktree add -q --detach $wt $(cat /tmp/seed_base 2>/dev/null || echo HEAD) || exit 2
 trap 'git -C /repo worktree remove --force '$wt' 2>/dev/null; rm -rf '$wt EXIT INT TERM
 git -C $wt apply "$patch" || { echo "patch does not apply"; exit 2; }
 for p in "$@"; do
